@@ -34,8 +34,21 @@ func writeOne(fr frame.Frame, drw *dialect.ReadWriter) (w *recWriter, err error)
 
 // checkRoundTrip is the C01 oracle for one well-formed flat frame without dialect.
 func checkRawRoundTrip(f ref.Frame, drw *dialect.ReadWriter) error {
+	return checkRawRoundTripObj(f, drw, false)
+}
+
+// checkRawRoundTripObj: with staleSig the library object of an unsigned v2 frame carries left-over
+// signature fields (as a frame has whose signed flag was cleared, or that went through FixFrame on a keyed
+// node): the layout is governed by the flag, so the bytes must still be the unsigned layout.
+func checkRawRoundTripObj(f ref.Frame, drw *dialect.ReadWriter, staleSig bool) error {
 	want := f.Bytes()
-	w, err := writeOne(gen.ToLib(f), drw)
+	lf := gen.ToLib(f)
+	if v2, ok := lf.(*frame.V2Frame); ok && staleSig && !f.Signed() {
+		v2.Signature = &frame.V2Signature{1, 2, 3, 4, 5, 6}
+		v2.SignatureLinkID = 9
+		v2.SignatureTimestamp = 123456
+	}
+	w, err := writeOne(lf, drw)
 	if err != nil {
 		return fmt.Errorf("write of a well-formed frame failed: %v", err)
 	}
@@ -85,7 +98,7 @@ func firstErr(res []result) error {
 
 func TestC01RawRoundTrip(t *testing.T) {
 	rec := evid.New(t, "C01", "rapid-generated flat frames (version, every header byte, id, payload 0..255, checksum, signature block) written by frame.Writer and compared with the reference serializer, then read back; non-trivial = payload non-empty or signed or a non-zero header byte; distinct by hash of the frame bytes")
-	rec.Require("v1", "v2-unsigned", "v2-signed", "len255", "len0", "id>=65536")
+	rec.Require("v1", "v2-unsigned", "v2-signed", "len255", "len0", "id>=65536", "unsigned-with-leftover-signature-fields")
 	_, ardu := dialects(t)
 	evid.Check(t, rec, evid.N(150000, 600000), func(t *rapid.T) {
 		f := gen.RawFrame(t, gen.FrameOpts{AnyFlags: rapid.IntRange(0, 9).Draw(t, "anyflags") == 0})
@@ -99,7 +112,8 @@ func TestC01RawRoundTrip(t *testing.T) {
 				drw = ardu.rw
 			}
 		}
-		if err := checkRawRoundTrip(f, drw); err != nil {
+		stale := f.V2 && !f.Signed() && rapid.IntRange(0, 3).Draw(t, "stale_sig_fields") == 0
+		if err := checkRawRoundTripObj(f, drw, stale); err != nil {
 			evid.ReplayNote("C01", "TestC01RawRoundTrip", gen.Describe(f)+"\n"+err.Error())
 			t.Fatalf("%s\n%v", gen.Describe(f), err)
 		}
@@ -121,6 +135,9 @@ func TestC01RawRoundTrip(t *testing.T) {
 		}
 		if withDialect {
 			cls = append(cls, "dialect-configured-id-outside")
+		}
+		if stale {
+			cls = append(cls, "unsigned-with-leftover-signature-fields")
 		}
 		b := f.Bytes()
 		nt := len(f.Payload) > 0 || f.Signed() || f.Seq != 0 || f.Sys != 0 || f.Comp != 0
@@ -326,3 +343,60 @@ func head(b []byte, n int) []byte {
 }
 
 var _ = io.EOF
+
+// TestC01StreamRoundTrip: several frames written through one writer into one stream and read back through
+// one reader (whose 512-byte window is refilled while frames are being parsed), in generated chunkings.
+func TestC01StreamRoundTrip(t *testing.T) {
+	rec := evid.New(t, "C01", "2..12 generated frames (biased to long payloads) written by one frame.Writer into one byte stream == concatenation of the reference layouts; one frame.Reader reads the stream back in generated chunkings and must return each frame equal field for field; non-trivial = stream longer than the reader's 512-byte window; distinct by hash of the stream")
+	rec.Require("longer-than-window")
+	evid.Check(t, rec, evid.N(15000, 80000), func(t *rapid.T) {
+		n := rapid.IntRange(2, 12).Draw(t, "n")
+		w := &recWriter{}
+		fw := &frame.Writer{ByteWriter: w}
+		if err := fw.Initialize(); err != nil {
+			t.Fatalf("BROKEN: %v", err)
+		}
+		var frames []ref.Frame
+		var want []byte
+		for i := 0; i < n; i++ {
+			f := gen.RawFrame(t, gen.FrameOpts{})
+			if rapid.Bool().Draw(t, "long") {
+				f.Payload = gen.Bytes(t, rapid.IntRange(200, 255).Draw(t, "plen_long"), "payload_long")
+			}
+			if err := fw.Write(gen.ToLib(f)); err != nil {
+				t.Fatalf("write %d failed: %v", i, err)
+			}
+			frames = append(frames, f)
+			want = append(want, f.Bytes()...)
+		}
+		if !bytes.Equal(w.all(), want) {
+			t.Fatalf("stream differs from the concatenated reference layouts")
+		}
+		sizes := rapid.SliceOfN(rapid.OneOf(rapid.IntRange(1, 40), rapid.IntRange(100, 700)), 0, 30).Draw(t, "chunks")
+		res, terr, herr := readAll(&chunkReader{data: want, sizes: sizes, failAt: -1}, nil, nil, len(want)+2)
+		if herr != nil || terr != io.EOF {
+			t.Fatalf("reading back: %v / %v", herr, terr)
+		}
+		if len(res) != n {
+			t.Fatalf("%d frames written, %d results read back (chunks %v)", n, len(res), sizes)
+		}
+		for i, r := range res {
+			if r.err != nil {
+				t.Fatalf("frame %d read back as error %v", i, r.err)
+			}
+			g, _, err := gen.FromLib(r.fr)
+			if err != nil || !gen.SameFrame(g, frames[i]) {
+				evid.ReplayNote("C01", "TestC01StreamRoundTrip", fmt.Sprintf("stream %x chunks %v frame %d: got %s want %s", want, sizes, i, gen.Describe(g), gen.Describe(frames[i])))
+				t.Fatalf("frame %d of %d (stream of %d bytes, chunks %v) read back differently:\n got  %s\n want %s", i, n, len(want), sizes, gen.Describe(g), gen.Describe(frames[i]))
+			}
+		}
+		var cls []string
+		if len(want) > 512 {
+			cls = append(cls, "longer-than-window")
+		}
+		rec.Case(len(want) > 512, evid.Hash(want, []byte(fmt.Sprint(sizes))), cls...)
+		if len(want) > 512 && rec.WantSample("stream") {
+			rec.Sample("stream", map[string]interface{}{"frames": n, "bytes": len(want), "chunks": sizes})
+		}
+	})
+}
